@@ -100,10 +100,35 @@ func (w *WaitGroup) Wait() {
 	}
 }
 
-// Map models sync.Map with a plain map (keys must be comparable, as for the real one).
+// Map models sync.Map with a plain map plus the insertion order of its keys, so that Range is
+// deterministic (keys must be comparable, as for the real one).
 type Map struct {
 	real realsync.Map
 	m    map[any]any
+	keys []any
+}
+
+func (m *Map) put(key, value any) {
+	if m.m == nil {
+		m.m = map[any]any{}
+	}
+	if _, ok := m.m[key]; !ok {
+		m.keys = append(m.keys, key)
+	}
+	m.m[key] = value
+}
+
+func (m *Map) del(key any) {
+	if _, ok := m.m[key]; !ok {
+		return
+	}
+	delete(m.m, key)
+	for i, k := range m.keys {
+		if k == key {
+			m.keys = append(m.keys[:i:i], m.keys[i+1:]...)
+			break
+		}
+	}
 }
 
 func (m *Map) Load(key any) (any, bool) {
@@ -121,10 +146,7 @@ func (m *Map) Store(key, value any) {
 		return
 	}
 	verifsched.SyncPoint("Map.Store")
-	if m.m == nil {
-		m.m = map[any]any{}
-	}
-	m.m[key] = value
+	m.put(key, value)
 }
 
 func (m *Map) LoadOrStore(key, value any) (any, bool) {
@@ -135,11 +157,18 @@ func (m *Map) LoadOrStore(key, value any) (any, bool) {
 	if v, ok := m.m[key]; ok {
 		return v, true
 	}
-	if m.m == nil {
-		m.m = map[any]any{}
-	}
-	m.m[key] = value
+	m.put(key, value)
 	return value, false
+}
+
+func (m *Map) LoadAndDelete(key any) (any, bool) {
+	if !verifsched.Active() {
+		return m.real.LoadAndDelete(key)
+	}
+	verifsched.SyncPoint("Map.LoadAndDelete")
+	v, ok := m.m[key]
+	m.del(key)
+	return v, ok
 }
 
 func (m *Map) Delete(key any) {
@@ -148,5 +177,322 @@ func (m *Map) Delete(key any) {
 		return
 	}
 	verifsched.SyncPoint("Map.Delete")
-	delete(m.m, key)
+	m.del(key)
+}
+
+func (m *Map) Swap(key, value any) (any, bool) {
+	if !verifsched.Active() {
+		return m.real.Swap(key, value)
+	}
+	verifsched.SyncPoint("Map.Swap")
+	v, ok := m.m[key]
+	m.put(key, value)
+	return v, ok
+}
+
+func (m *Map) CompareAndSwap(key, old, new any) bool {
+	if !verifsched.Active() {
+		return m.real.CompareAndSwap(key, old, new)
+	}
+	verifsched.SyncPoint("Map.CompareAndSwap")
+	if v, ok := m.m[key]; ok && v == old {
+		m.m[key] = new
+		return true
+	}
+	return false
+}
+
+func (m *Map) CompareAndDelete(key, old any) bool {
+	if !verifsched.Active() {
+		return m.real.CompareAndDelete(key, old)
+	}
+	verifsched.SyncPoint("Map.CompareAndDelete")
+	if v, ok := m.m[key]; ok && v == old {
+		m.del(key)
+		return true
+	}
+	return false
+}
+
+func (m *Map) Range(f func(key, value any) bool) {
+	if !verifsched.Active() {
+		m.real.Range(f)
+		return
+	}
+	verifsched.SyncPoint("Map.Range")
+	for _, k := range append([]any(nil), m.keys...) {
+		v, ok := m.m[k]
+		if !ok {
+			continue
+		}
+		if !f(k, v) {
+			break
+		}
+	}
+}
+
+func (m *Map) Clear() {
+	if !verifsched.Active() {
+		m.real.Clear()
+		return
+	}
+	verifsched.SyncPoint("Map.Clear")
+	m.m, m.keys = nil, nil
+}
+
+// TryLock tries to lock m and reports whether it succeeded.
+func (m *Mutex) TryLock() bool {
+	if !verifsched.Active() {
+		return m.real.TryLock()
+	}
+	verifsched.SyncPoint("Mutex.TryLock")
+	if m.held {
+		return false
+	}
+	m.held = true
+	return true
+}
+
+// RWMutex models sync.RWMutex (writer preference is not modelled: a reader may enter whenever no
+// writer holds the lock, which admits a superset of the real schedules).
+type RWMutex struct {
+	real    realsync.RWMutex
+	writer  bool
+	readers int
+}
+
+func (m *RWMutex) Lock() {
+	if !verifsched.Active() {
+		m.real.Lock()
+		return
+	}
+	verifsched.SyncPoint("RWMutex.Lock")
+	if m.writer || m.readers > 0 {
+		verifsched.Block(func() bool { return !m.writer && m.readers == 0 }, "RWMutex.Lock(wait)")
+	}
+	m.writer = true
+}
+
+func (m *RWMutex) TryLock() bool {
+	if !verifsched.Active() {
+		return m.real.TryLock()
+	}
+	verifsched.SyncPoint("RWMutex.TryLock")
+	if m.writer || m.readers > 0 {
+		return false
+	}
+	m.writer = true
+	return true
+}
+
+func (m *RWMutex) Unlock() {
+	if !verifsched.Active() {
+		m.real.Unlock()
+		return
+	}
+	if !m.writer {
+		panic("sync: Unlock of unlocked RWMutex")
+	}
+	m.writer = false
+	verifsched.SyncPoint("RWMutex.Unlock")
+}
+
+func (m *RWMutex) RLock() {
+	if !verifsched.Active() {
+		m.real.RLock()
+		return
+	}
+	verifsched.SyncPoint("RWMutex.RLock")
+	if m.writer {
+		verifsched.Block(func() bool { return !m.writer }, "RWMutex.RLock(wait)")
+	}
+	m.readers++
+}
+
+func (m *RWMutex) TryRLock() bool {
+	if !verifsched.Active() {
+		return m.real.TryRLock()
+	}
+	verifsched.SyncPoint("RWMutex.TryRLock")
+	if m.writer {
+		return false
+	}
+	m.readers++
+	return true
+}
+
+func (m *RWMutex) RUnlock() {
+	if !verifsched.Active() {
+		m.real.RUnlock()
+		return
+	}
+	if m.readers <= 0 {
+		panic("sync: RUnlock of unlocked RWMutex")
+	}
+	m.readers--
+	verifsched.SyncPoint("RWMutex.RUnlock")
+}
+
+type rlocker RWMutex
+
+func (r *rlocker) Lock()   { (*RWMutex)(r).RLock() }
+func (r *rlocker) Unlock() { (*RWMutex)(r).RUnlock() }
+
+func (m *RWMutex) RLocker() Locker { return (*rlocker)(m) }
+
+// Cond models sync.Cond: waiters queue up; Signal releases the oldest, Broadcast all.
+type Cond struct {
+	L       Locker
+	real    *realsync.Cond
+	waiters []*bool
+}
+
+func NewCond(l Locker) *Cond { return &Cond{L: l, real: realsync.NewCond(l)} }
+
+func (c *Cond) Wait() {
+	if !verifsched.Active() {
+		c.real.Wait()
+		return
+	}
+	released := false
+	c.waiters = append(c.waiters, &released)
+	c.L.Unlock()
+	verifsched.Block(func() bool { return released }, "Cond.Wait")
+	c.L.Lock()
+}
+
+func (c *Cond) Signal() {
+	if !verifsched.Active() {
+		c.real.Signal()
+		return
+	}
+	if len(c.waiters) > 0 {
+		*c.waiters[0] = true
+		c.waiters = c.waiters[1:]
+	}
+	verifsched.SyncPoint("Cond.Signal")
+}
+
+func (c *Cond) Broadcast() {
+	if !verifsched.Active() {
+		c.real.Broadcast()
+		return
+	}
+	for _, w := range c.waiters {
+		*w = true
+	}
+	c.waiters = nil
+	verifsched.SyncPoint("Cond.Broadcast")
+}
+
+// Pool models sync.Pool deterministically: a LIFO free list that is never dropped.
+type Pool struct {
+	New  func() any
+	real realsync.Pool
+	free []any
+}
+
+func (p *Pool) Get() any {
+	if !verifsched.Active() {
+		if p.real.New == nil && p.New != nil {
+			p.real.New = p.New
+		}
+		return p.real.Get()
+	}
+	verifsched.SyncPoint("Pool.Get")
+	if n := len(p.free); n > 0 {
+		x := p.free[n-1]
+		p.free = p.free[:n-1]
+		return x
+	}
+	if p.New != nil {
+		return p.New()
+	}
+	return nil
+}
+
+func (p *Pool) Put(x any) {
+	if !verifsched.Active() {
+		p.real.Put(x)
+		return
+	}
+	verifsched.SyncPoint("Pool.Put")
+	if x != nil {
+		p.free = append(p.free, x)
+	}
+}
+
+// OnceFunc, OnceValue and OnceValues are built on the modelled Once.
+func OnceFunc(f func()) func() {
+	var once Once
+	var valid bool
+	var p any
+	g := func() {
+		defer func() {
+			p = recover()
+			if !valid {
+				panic(p)
+			}
+		}()
+		f()
+		f = nil
+		valid = true
+	}
+	return func() {
+		once.Do(g)
+		if !valid {
+			panic(p)
+		}
+	}
+}
+
+func OnceValue[T any](f func() T) func() T {
+	var once Once
+	var valid bool
+	var p any
+	var result T
+	g := func() {
+		defer func() {
+			p = recover()
+			if !valid {
+				panic(p)
+			}
+		}()
+		result = f()
+		f = nil
+		valid = true
+	}
+	return func() T {
+		once.Do(g)
+		if !valid {
+			panic(p)
+		}
+		return result
+	}
+}
+
+func OnceValues[T1, T2 any](f func() (T1, T2)) func() (T1, T2) {
+	var once Once
+	var valid bool
+	var p any
+	var r1 T1
+	var r2 T2
+	g := func() {
+		defer func() {
+			p = recover()
+			if !valid {
+				panic(p)
+			}
+		}()
+		r1, r2 = f()
+		f = nil
+		valid = true
+	}
+	return func() (T1, T2) {
+		once.Do(g)
+		if !valid {
+			panic(p)
+		}
+		return r1, r2
+	}
 }
